@@ -230,6 +230,7 @@ def run(ctx):
     k2_witness(ctx, root)
     # ---- parameter objects derived from AutoParameterObject
     auto_objects(ctx, root)
+    config_object_probe(ctx, root)
 
 
 K2_SRC = '''
@@ -356,12 +357,15 @@ def auto_objects(ctx, root):
             return {'l': [enc(y) for y in x]}
         return pl.to_model(x)
 
-    def build(d, kwargs, gv, order=None):
+    def build(d, kwargs, gv, order=None, nest=None):
         kw = {k_: kwargs[k_] for k_ in (order or list(kwargs))}
-        ch = Config(root / 'aod', name='c', data={'tasks': [task_cls], 'obj': {'class': f'{modname}.{d["cls"]}', 'kwargs': kw}},
-                    global_vars={'D': gv}).chain()
+        defn = {'class': f'{modname}.{d["cls"]}', 'kwargs': kw}
+        # the object is the parameter value itself, or sits inside a list- / dict-valued parameter
+        val = {None: defn, 'list': [defn, 1], 'dict': {'k': defn, 'n': [defn]}}[nest]
+        ch = Config(root / 'aod', name='c', data={'tasks': [task_cls], 'obj': val}, global_vars={'D': gv}).chain()
         t = ch.tasks['o']
-        return t, t.params['obj']
+        o = t.params['obj']
+        return t, {None: lambda: o, 'list': lambda: o[0], 'dict': lambda: o['k']}[nest]()
     reqs, metas = [], []
     for k, d in enumerate(decls):
         rng = ctx.rng('ao-val', k)
@@ -381,8 +385,10 @@ def auto_objects(ctx, root):
                 v = rng.choice(AO_SCALARS)
             kwargs[a['name']] = v
         case = {'decl': d, 'kwargs': kwargs}
+        nest = rng.choice([None, None, 'list', 'dict'])
+        case['nested_in'] = nest
         try:
-            t1, o1 = build(d, kwargs, '/srv/data')
+            t1, o1 = build(d, kwargs, '/srv/data', nest=nest)
             impl = {'repr': o1.repr()}
         except AttributeError:
             impl = {'error': 'AttributeError'}; t1 = o1 = None
@@ -408,12 +414,13 @@ def auto_objects(ctx, root):
             continue
         # ---- oracle: computation-preserving rewritings of the object definition keep the location
         loc = t1.data_path
-        rewrites = {'global_vars value': lambda: build(d, kwargs, '/home/me/mnt'),
-                    'kwargs order': lambda: build(d, kwargs, '/srv/data', order=list(reversed(list(kwargs))))}
+        ctx.count(f'auto-object:nested-in-{nest}')
+        rewrites = {'global_vars value': lambda: build(d, kwargs, '/home/me/mnt', nest=nest),
+                    'kwargs order': lambda: build(d, kwargs, '/srv/data', order=list(reversed(list(kwargs))), nest=nest)}
         ign = [a['name'] for a in d['args'] if a['name'] in d['ignore']]
         if ign:
             kw2 = {**kwargs, ign[0]: 'changed-ignored-argument'}
-            rewrites['value of an ignored argument'] = lambda: build(d, kw2, '/srv/data')
+            rewrites['value of an ignored argument'] = lambda: build(d, kw2, '/srv/data', nest=nest)
         for what, fn in rewrites.items():
             t2, _ = fn()
             ctx.count(f'auto-rw:{what}')
@@ -423,6 +430,52 @@ def auto_objects(ctx, root):
     for (case, impl), mo in zip(metas, ctx.model.many(reqs)):
         if impl != mo:
             ctx.diverge('auto-parameter-object:repr', case, impl, mo)
+    b.cleanup_module()
+
+
+def config_object_probe(ctx, root):
+    """the location does not depend on HOW the pipeline config reaches the chain — as a file path in `uses` or as a prepared Config object
+    in `uses` (which the chain prepares a second time) — nor on the values substituted for placeholders, also for strings that mix a
+    defined placeholder with one left for the task (`{D}/model_{epoch}.pt`)"""
+    import json as _json
+    from taskchain import Config
+    spec = {'classes': {'K0': {'name': 'o', 'group': '', 'params': [{'name': 's'}, {'name': 'l', 'default': None}], 'inputs': [], 'kind': 'json', 'run_args': []},
+                        'K1': {'name': 'd', 'group': '', 'params': [], 'inputs': [{'by': 'class', 'ref': 'K0'}], 'kind': 'json', 'run_args': [],
+                               'pull': [], 'in_kinds': {}}},
+            'files': {}, 'main': None}
+    b = pl.materialize(spec, root / 'cop', modname=gen.fresh_modname())
+    mod = b.module()
+    tasks = [f'{b.modname}.{pl.pyname("K0")}', f'{b.modname}.{pl.pyname("K1")}']
+    for k in range(ctx.n(12, 80)):
+        rng = ctx.rng('config-object', k)
+        sval = rng.choice(['{D}/model_{epoch}.pt', '{D}/x', 'pre{D}{E}', '{undefined}/{D}', 'plain', "{D}'q"])
+        lval = rng.choice([None, ['{D}', {'k': '{D}/{n}'}]])
+        d = root / f'cop{k}'
+        d.mkdir(parents=True, exist_ok=True)
+        pdata = {'tasks': tasks, 's': sval}
+        if lval is not None:
+            pdata['l'] = lval
+        (d / 'p.json').write_text(_json.dumps(pdata))
+        (d / 'main.json').write_text(_json.dumps({'uses': [str(d / 'p.json')]}))
+        ns = rng.choice([None, 'n'])
+        case = {'probe': 'Config object in uses', 's': sval, 'l': lval, 'namespace': ns}
+        ctx.case(case); ctx.count('config-object-probe')
+        locs = {}
+        for how in ('file', 'object'):
+            for gv in ({'D': '/srv/a', 'E': 1}, {'D': '/mnt/b', 'E': 'two'}):
+                try:
+                    if how == 'file':
+                        (d / 'main.json').write_text(_json.dumps({'uses': [str(d / 'p.json') + (f' as {ns}' if ns else '')]}))
+                        ch = Config(d / 'data', str(d / 'main.json'), global_vars=gv).chain()
+                    else:
+                        used = Config(d / 'data', str(d / 'p.json'), global_vars=gv, namespace=ns)
+                        ch = Config(d / 'data', name='main', data={'uses': [used]}, global_vars=gv).chain()
+                    locs[(how, gv['D'])] = {t.slugname: str(t.data_path) for t in ch.tasks.values()}
+                except Exception as e:      # noqa
+                    locs[(how, gv['D'])] = f'{type(e).__name__}: {e}'[:120]
+        if len({_json.dumps(v, sort_keys=True) for v in locs.values()}) != 1:
+            ctx.fail('the storage location depends on how the pipeline config is handed to the chain or on the values of global_vars', case,
+                     {f'{h}/{g}': v for (h, g), v in locs.items()})
     b.cleanup_module()
 
 
